@@ -3,6 +3,7 @@ package c14
 import (
 	"bytes"
 	"crypto/rand"
+	"crypto/sha256"
 	"crypto/x509/pkix"
 	"encoding/asn1"
 	"fmt"
@@ -192,6 +193,13 @@ func withCryptoRand(r io.Reader, f func()) {
 	rand.Reader = r
 	defer func() { rand.Reader = old }()
 	f()
+}
+
+// publish hands a container the library wrote (all its randomness comes from the case generator) to the
+// driver, which demands the same bytes from every dispatch configuration and build variant.
+func publish(c *mon.Case, kind string, container []byte) {
+	sum := sha256.Sum256(container)
+	c.Digest(fmt.Sprintf("%s/%d", kind, c.N), sum[:12])
 }
 
 // ---------------------------------------------------------------- verdict helpers
